@@ -3,7 +3,11 @@
    configured), whether a jqFilter is set, the distinct object states used (resource id,
    object), /usr/bin/jq's answer for the case's filter on every state (the independent
    oracle that instantiates the model's Section variable), the history as (watch event
-   type, state index), and what the implementation did at every delivery. *)
+   type = handler called, state index, form of the argument handed to the handler), and
+   what the implementation did at every delivery.
+   Forms: [FObject] the *unstructured.Unstructured itself; [FTombstone] the
+   cache.DeletedFinalStateUnknown that client-go's DeltaFIFO.Replace makes of the object
+   when a relist no longer lists it (the harness obtains it from a real DeltaFIFO). *)
 From Verif Require Import Common Json C08_Model C08_Spec.
 
 (* implementation's observation of one delivery *)
@@ -15,12 +19,14 @@ Record iobs := mkI {
   i_cache : list (N * N)              (* cachedObjects after the delivery: (resource id, state index), sorted by id *)
 }.
 
+Inductive form := FObject | FTombstone.
+
 Record case := mkCase {
   k_types : option (list evtype);
   k_filter : bool;
   k_states : list (N * json);
   k_answers : list (list json * bool);
-  k_history : list (evtype * N);
+  k_history : list (evtype * N * form);
   k_obs : list iobs
 }.
 
@@ -43,13 +49,21 @@ Fixpoint index_of_state (o : json) (states : list (N * json)) (k : N) : N :=
   | (_, s) :: r => if json_eqb o s then k else index_of_state o r (N.succ k)
   end.
 
-Definition steps_of (c : case) : list step :=
-  map (fun ts => let s := state_at c (snd ts) in (fst ts, fst s, snd s)) (k_history c).
+Definition steps_of (c : case) : list dstep :=
+  map (fun tsf => let s := state_at c (snd (fst tsf)) in
+                  (fst (fst tsf), fst s,
+                   match snd tsf with
+                   | FObject => Plain (snd s)
+                   | FTombstone => Tombstone (fst s) (snd s)
+                   end)) (k_history c).
+
+(* the changes the deliveries report: what the specification speaks of *)
+Definition changes_of (c : case) : list step := map change_of (steps_of c).
 
 Definition config_of (c : case) : config := mkConfig (with_event_types (k_types c)) (k_filter c).
 
 (* the model's observation in the implementation's vocabulary *)
-Definition obs_of_step (c : case) (s : step) (r : cache * option event) : iobs :=
+Definition obs_of_step (c : case) (s : dstep) (r : cache * option event) : iobs :=
   let idx o := index_of_state o (k_states c) 0%N in
   let id := snd (fst s) in
   mkI (match snd r with Some ev => [(ev_type ev, idx (e_obj (ev_entry ev)))] | None => [] end)
@@ -59,14 +73,14 @@ Definition obs_of_step (c : case) (s : step) (r : cache * option event) : iobs :
        end)
       (map (fun ie => (fst ie, idx (e_obj (snd ie)))) (fst r)).
 
-Fixpoint zip_obs (c : case) (h : list step) (rs : list (cache * option event)) : list iobs :=
+Fixpoint zip_obs (c : case) (h : list dstep) (rs : list (cache * option event)) : list iobs :=
   match h, rs with
   | s :: h', r :: rs' => obs_of_step c s r :: zip_obs c h' rs'
   | _, _ => []
   end.
 
 Definition model_obs (c : case) : list iobs :=
-  zip_obs c (steps_of c) (run (jq_of c) (config_of c) [] (steps_of c)).
+  zip_obs c (steps_of c) (run_d (jq_of c) (config_of c) [] (steps_of c)).
 
 Definition ojson_eqb : option json -> option json -> bool := option_eqb json_eqb.
 Definition iobs_eqb (a b : iobs) : bool :=
@@ -88,11 +102,11 @@ Definition spec_obs (c : case) (o : iobs) : obs :=
   mkObs (map fst (i_fired o)) (map (fun p => (fst p, snd (state_at c (snd p)))) (i_cache o)).
 
 Definition P_case (c : case) : bool :=
-  P (jq_of c) (with_event_types (k_types c)) (k_filter c) (steps_of c) (map (spec_obs c) (k_obs c)).
+  P (jq_of c) (with_event_types (k_types c)) (k_filter c) (changes_of c) (map (spec_obs c) (k_obs c)).
 
 Definition spec_violations (cs : list case) : list N := indices_where (fun c => negb (P_case c)) cs.
 
 Definition trigger_F8 (cs : list case) : list N :=
-  indices_where (fun c => T_F8 (jq_of c) (k_filter c) (steps_of c)) cs.
+  indices_where (fun c => T_F8 (jq_of c) (k_filter c) (changes_of c)) cs.
 Definition trigger_F16 (cs : list case) : list N :=
-  indices_where (fun c => T_F16 (jq_of c) (k_filter c) (steps_of c)) cs.
+  indices_where (fun c => T_F16 (jq_of c) (k_filter c) (changes_of c)) cs.
